@@ -60,6 +60,29 @@ def _extend(paths, st):
     return done + [p + cs for p in live]
 
 
+def _always_returns(stmts):
+    """every way through the statement list ends in a return (or throw)"""
+    if not stmts:
+        return False
+    last = stmts[-1]
+    t = last.get("type")
+    if t in ("ReturnStatement", "ThrowStatement"):
+        return True
+    if t == "BlockStatement":
+        return _always_returns(last.get("stmts") or [])
+    if t == "IfStatement":
+        alt = last.get("alternate")
+        cons = last.get("consequent") or {}
+        return alt is not None and _always_returns([cons]) and _always_returns([alt])
+    if t == "TryStatement":
+        blk = (last.get("block") or {}).get("stmts") or []
+        h = ((last.get("handler") or {}).get("body") or {}).get("stmts") or []
+        if last.get("finalizer") and _always_returns((last["finalizer"].get("stmts")) or []):
+            return True
+        return _always_returns(blk) and (last.get("handler") is None or _always_returns(h))
+    return False
+
+
 def run(check):
     prog = check.prog
     main = jsast.JsFile(prog.js, "main.js")
@@ -247,9 +270,10 @@ def run(check):
         conv = [d for r, d in shapes if d.get("line") == ("originalLine", "+", 1.0)]
         c.expect(len(conv) == 1 and conv[0].get("column") == ("originalColumn", "+", 1.0), R3, R3 + "/result", sm.loc(g), "line: originalLine + 1, column: originalColumn + 1", "translated position is reported as %s" % [d for r, d in shapes])
         last = g["body"]["stmts"][-1]
-        fall = [d for r, d in shapes if r is last]
-        okf = fall and fall[0] == {"path": ("id", params[1]), "line": ("id", params[2]), "column": ("id", params[3])}
-        c.expect(bool(okf), R3, R3 + "/pass-through", sm.loc(last), "fall-through returns { path: filename, line, column } unchanged", "fall-through of getPathAndLine returns %s" % (fall[0] if fall else None))
+        passthru = {"path": ("id", params[1]), "line": ("id", params[2]), "column": ("id", params[3])}
+        others = [d for r, d in shapes if d is not (conv[0] if conv else None)]
+        okf = bool(others) and all(d == passthru for d in others) and _always_returns(g["body"]["stmts"])
+        c.expect(bool(okf), R3, R3 + "/pass-through", sm.loc(last), "every other exit returns { path: filename, line, column } unchanged", "getPathAndLine has an exit that does not return its parameters unchanged: %s" % ([d for d in others if d != passthru] or "falls off the end"))
         trys = [x for x in g["body"]["stmts"] if x.get("type") == "TryStatement"]
         inside = trys and all(any(y is x for y in jsast.walk(trys[0]["block"])) for x in fe)
         c.expect(bool(inside) and trys[0].get("handler") is not None, R3, R3 + "/never-throws", sm.loc(g), "lookup inside try/catch", "the map lookup can throw out of getPathAndLine")
@@ -264,13 +288,23 @@ def run(check):
         o = sm.function("getOriginalPathAndLineFromSourceMap")
         op = [jsast.param_name(p) for p in o["params"]]
         lasto = o["body"]["stmts"][-1]
-        d = {}
-        for p in (lasto.get("argument") or {}).get("properties", []):
-            if p.get("type") == "Identifier":
-                d[p["value"]] = p["value"]
-            elif p.get("type") == "KeyValueProperty" and p["value"].get("type") == "Identifier":
-                d[p["key"]["value"]] = p["value"]["value"]
-        c.expect(d == {"path": op[0], "line": op[1], "column": op[2]}, R3, R3 + "/original-pass-through", sm.loc(lasto), "getOriginalPathAndLineFromSourceMap falls through to its parameters", "getOriginalPathAndLineFromSourceMap falls through to %s" % d)
+        bad_rets = []
+        n_pass = 0
+        for r_ in [x for x in jsast.walk(o) if x.get("type") == "ReturnStatement"]:
+            arg = r_.get("argument") or {}
+            if arg.get("type") == "CallExpression" and callee_name(arg) == ["getPathAndLine"]:
+                continue
+            d = {}
+            for p in arg.get("properties", []) if arg.get("type") == "ObjectExpression" else []:
+                if p.get("type") == "Identifier":
+                    d[p["value"]] = p["value"]
+                elif p.get("type") == "KeyValueProperty" and p["value"].get("type") == "Identifier":
+                    d[p["key"]["value"]] = p["value"]["value"]
+            if d == {"path": op[0], "line": op[1], "column": op[2]}:
+                n_pass += 1
+            else:
+                bad_rets.append(d or arg.get("type"))
+        c.expect(not bad_rets and n_pass >= 1 and _always_returns(o["body"]["stmts"]), R3, R3 + "/original-pass-through", sm.loc(lasto), "getOriginalPathAndLineFromSourceMap returns the translated position or its parameters unchanged", "getOriginalPathAndLineFromSourceMap has an exit returning %s" % (bad_rets or "nothing (falls off the end)"))
 
     check.guarded(R3, idx)
 
@@ -308,14 +342,28 @@ def run(check):
             c.expect(okm, R4, "%s/%s" % (R4, mname), st.loc(m), "%s returns this.%s" % (mname, field), "%s does not return the translated value" % mname)
         c.expect(assigns.get("source") == "path" and assigns.get("lineNumber") == "line" and assigns.get("columnNumber") == "column", R4, R4 + "/fields", st.loc(ctor[0]), "translated path/line/column stored", "constructor stores %s" % assigns)
         g = st.function("getPrepareStackTrace")
-        news = [x for x in jsast.walk(g) if x.get("type") == "NewExpression" and jsast.ident_name(x["callee"]) == "WrappedCallSite"]
-        trys = [x for x in jsast.walk(g) if x.get("type") == "TryStatement"]
-        inside = news and trys and all(any(y is n for y in jsast.walk(t["block"])) for n in news for t in trys[:1])
-        fb = False
-        if trys and trys[0].get("handler"):
-            for a in jsast.walk(trys[0]["handler"]):
-                if a.get("type") == "AssignmentExpression" and jsast.ident_name(a["right"]) == "structuredStackTrace":
-                    fb = True
+        # wherever the call sites are wrapped (in the handler itself or in a helper): inside a try whose
+        # catch falls back to the untouched array that was being mapped
+        news = [x for x in jsast.walk(st.program) if x.get("type") == "NewExpression" and jsast.ident_name(x["callee"]) == "WrappedCallSite"]
+        trys_all = [x for x in jsast.walk(st.program) if x.get("type") == "TryStatement"]
+        inside = bool(news)
+        fb = bool(news)
+        for n_ in news:
+            holder = [t for t in trys_all if any(y is n_ for y in jsast.walk(t["block"]))]
+            if not holder or not holder[-1].get("handler"):
+                inside = False
+                fb = False
+                continue
+            t = holder[-1]
+            # the array that is mapped: <arr>.map(cs => new WrappedCallSite(cs))
+            arrs = [jsast.member_chain(c_["callee"].get("expression", c_["callee"]))[0] for c_ in jsast.walk(t["block"]) if c_.get("type") == "CallExpression" and (jsast.member_chain(c_["callee"].get("expression", c_["callee"])) or ["", ""])[-1] == "map" and any(y is n_ for y in jsast.walk(c_))]
+            ok_fb = False
+            for a in jsast.walk(t["handler"]):
+                if a.get("type") == "AssignmentExpression" and jsast.ident_name(a["right"]) in arrs:
+                    ok_fb = True
+                if a.get("type") == "ReturnStatement" and a.get("argument") and jsast.ident_name(a["argument"]) in arrs:
+                    ok_fb = True
+            fb = fb and ok_fb
         c.expect(bool(inside) and fb, R4, R4 + "/never-throws", st.loc(g), "wrapping inside try, fallback = untouched call sites", "WrappedCallSite construction can throw out of prepareStackTrace or has no fallback")
 
     check.guarded(R4, stack)
